@@ -129,6 +129,18 @@ func (d *protoDom) step(st *sState, in ssa.Instruction) bool {
 		return true
 	}
 	switch x := in.(type) {
+	case *ssa.Store:
+		// a field element held by value (returned by a helper, or assigned): the destination object takes the content
+		if dst, ok := e.get(st, x.Addr).(pObj); ok {
+			if src, ok := e.get(st, x.Val).(pObj); ok {
+				hd, hs := d.obj(st, dst), d.obj(st, src)
+				if hd != nil && hs != nil && hd.kind == hs.kind && (hd.kind == "elem" || hd.kind == "scalar") {
+					cp := *hs
+					d.setObj(st, dst, &cp)
+					return true
+				}
+			}
+		}
 	case *ssa.Alloc:
 		elemT := x.Type().Underlying().(*types.Pointer).Elem()
 		if k := allocKind(elemT); k != "" && !(k == "point" && d.structPoints) {
